@@ -115,9 +115,10 @@ def build_response(ver, op, resp, payload, reason, message):
     if resp == "success":
         items.append(messages.ResponseBatchItem(operation=contents.Operation(ENUM_OP[op]),
                                                 result_status=contents.ResultStatus(enums.ResultStatus.SUCCESS), response_payload=payload))
-    elif resp in ("failed", "undone"):
-        st = enums.ResultStatus.OPERATION_FAILED if resp == "failed" else enums.ResultStatus.OPERATION_UNDONE
-        items.append(messages.ResponseBatchItem(operation=contents.Operation(ENUM_OP[op]), result_status=contents.ResultStatus(st),
+    elif resp in ("failed", "undone", "failed_noop"):
+        st = enums.ResultStatus.OPERATION_UNDONE if resp == "undone" else enums.ResultStatus.OPERATION_FAILED
+        items.append(messages.ResponseBatchItem(operation=None if resp == "failed_noop" else contents.Operation(ENUM_OP[op]),
+                                                result_status=contents.ResultStatus(st),
                                                 result_reason=contents.ResultReason(enums.ResultReason[reason]),
                                                 result_message=contents.ResultMessage(message)))
     elif resp == "wrongop":
@@ -189,7 +190,7 @@ def _rows(args):
                        "reason": getattr(e.reason, "name", str(e.reason)), "message": str(e)}
             except Exception as e:
                 obs = {"kind": "raised", "dataok": False, "status": "", "reason": "", "message": "", "exc": "%s: %s" % (type(e).__name__, str(e)[:100])}
-            want_status = {"failed": "OPERATION_FAILED", "undone": "OPERATION_UNDONE"}.get(row["resp"], "")
+            want_status = {"failed": "OPERATION_FAILED", "failed_noop": "OPERATION_FAILED", "undone": "OPERATION_UNDONE"}.get(row["resp"], "")
             out.append({"row": row, "ver": ver, "obs": obs, "want": {"status": want_status, "reason": row["reason"], "message": message},
                         "request_sent": len(sock.requests)})
     return out
@@ -278,7 +279,7 @@ def check(run, tier):
             nrun += 1
             row, obs, want = o["row"], o["obs"], o["want"]
             outcome = "raises" if row["chunk"] in ("eof_in_header", "eof_in_body") else \
-                {"success": "returns", "failed": "op_failure", "undone": "op_failure"}.get(row["resp"], "raises")
+                {"success": "returns", "failed": "op_failure", "failed_noop": "op_failure", "undone": "op_failure"}.get(row["resp"], "raises")
             sig = {"op": row["op"], "resp": row["resp"], "chunk": row["chunk"], "ver": o["ver"][0] * 10 + o["ver"][1]}
             run.case(common.jdump(sig) + row["reason"])
             bad = None
